@@ -227,8 +227,11 @@ func parseStackPCs(crash string) ([]uintptr, error) {
 
 		// Search for "goroutine GID [STATUS]"
 		if !on {
+			// (The status may be followed by annotations, as in
+			// "[running, locked to thread]" for a goroutine wired to
+			// its thread, e.g. the main goroutine during initialization.)
 			if strings.HasPrefix(line, "goroutine ") &&
-				strings.Contains(line, " [running]:") {
+				(strings.Contains(line, " [running]:") || strings.Contains(line, " [running, ")) {
 				on = true
 
 				if parentSentinel == 0 {
